@@ -222,6 +222,15 @@ pub fn validate_case_plans(si: &gen::SchemaInfo, text: &str, tmpdir: &str, plans
 }
 
 /// a case restricted to some rules (used by the per-rule enumerators); acyclic documents only run in-process
+/// the field-merging rule alone, the driver also evaluating the spec's FieldsInSetCanMerge (`mergeSpec`)
+pub fn merge_case(si: &gen::SchemaInfo, text: &str, tmpdir: &str, meta: serde_json::Value, out: &mut Out) {
+    let doc = match gen::parse_doc(text) { Some(d) => d, None => return };
+    let cyclic = is_cyclic(&doc);
+    let rules = ["OverlappingFieldsCanBeMerged"];
+    let obs = if cyclic { observe_isolated(si, text, tmpdir) } else { observe_rules(&si.doc, &doc, false, &rules, false) };
+    out.push(json!({"op": "validate", "src": text, "doc": enc::document(&doc), "cyclic": cyclic, "rules": rules, "impl": obs, "mergeSpec": true, "meta": meta}));
+}
+
 /// like `rules_case`, with generator-side facts about the case (`meta`) carried along for the check
 pub fn rules_case_meta(si: &gen::SchemaInfo, text: &str, rules: &[&str], tmpdir: &str, meta: serde_json::Value, out: &mut Out) {
     let doc = match gen::parse_doc(text) { Some(d) => d, None => return };
